@@ -29,17 +29,18 @@ def run(ctx):
     bg = ThreadPoolExecutor(max_workers=2)
     f_dev = bg.submit(T.dev_runs, ctx, DEVS if thorough else dict(list(DEVS.items())[:QUICK_DEVS]))
     f_rec = bg.submit(T.record_and_validate, ctx, ENGINE, *REC[thorough], REC_WHAT)
-    results = T.run_families(ctx, FAMILIES, ctx.tier, workers=4 if thorough else 2, timeout=3000 if thorough else 600)
+    families = T.dev_subset(FAMILIES)   # developer knob VERIF_TRACKER_FAMILIES, normally all
+    results = T.run_families(ctx, families, ctx.tier, workers=4 if thorough else 2, timeout=3000 if thorough else 600)
     stats = {}
     ncases = 0
     drift_total = 0
-    for fam in FAMILIES:
+    for fam in families:
         res = results[fam]
         ctx.tlc_ok(res, f"MCTracker {fam}")
         if res.violated:
             T.model_violation(ctx, fam, res)
             continue
-        n = len(res.cases) - 1
+        n = res.ncases - 1
         recs, summary = T.replay_family(ctx, ENGINE, fam, res, 12 if thorough else 8, stats)
         T.vacuity(fam, summary)
         cfg = summary["cfg"]
@@ -58,7 +59,7 @@ def run(ctx):
     f_dev.result()
     end, strict_rejected = T.merge_recorded(ctx, f_rec.result())
     bg.shutdown()
-    ctx.cov["exhaustive"] = not ctx.violations
+    ctx.cov["exhaustive"] = not ctx.violations and families == FAMILIES
     ctx.cov["samples"] = [{"family": f, **{k: stats[f][k] for k in ("cases", "fan", "nondelegate_protected", "fan_rejected")}} for f in stats][:4] + ctx.cov["samples"]
     ctx.assumptions += [
         "identity documents are materialised as commits carrying embeds/radicle.json and read through the real "
